@@ -430,10 +430,11 @@ def settle_replay(legs):
         return
     out, summ = legs.replay_result
     beh, n = legs.replay_input
-    if summ["inconclusive"] * 10 > max(1, summ["histories"]):
+    found = any(v.get("kind") == "violation" for v in out)
+    if not found and summ["inconclusive"] * 10 > max(1, summ["histories"]):
         vlib.log("replay_health: %d of %d schedules inconclusive (%s): retrying once" % (summ["inconclusive"], summ["histories"], summ["first_inconclusive"][:120]))
         out, summ = replay_once(legs, beh, "retry")
-        if summ["inconclusive"] * 10 > max(1, summ["histories"]):
+        if not any(v.get("kind") == "violation" for v in out) and summ["inconclusive"] * 10 > max(1, summ["histories"]):
             raise vlib.ToolError("inconclusive: replay_health could not keep its clock on this machine (%d of %d schedules: %s)"
                                  % (summ["inconclusive"], summ["histories"], summ["first_inconclusive"][:200]))
     if not summ.get("hooked"):
